@@ -29,6 +29,11 @@ func (c *Ctx) namedType(pkgPath, name string) *types.Named {
 	}
 	o := p.Scope().Lookup(name)
 	if o == nil {
+		if tn := typeAliasByOld[pkgPath+"."+name]; tn != nil {
+			o = tn
+		}
+	}
+	if o == nil {
 		c.unresolved("type " + pkgPath + "." + name)
 		return nil
 	}
@@ -136,7 +141,7 @@ func calleeName(cc *ssa.CallCommon) string {
 	}
 	if f := cc.StaticCallee(); f != nil {
 		if f.Object() != nil {
-			full := f.Object().(*types.Func).FullName()
+			full := normTypeNames(f.Object().(*types.Func).FullName())
 			if old, ok := fnAlias[f]; ok && strings.HasSuffix(full, "."+f.Name()) {
 				full = full[:len(full)-len(f.Name())] + old
 			}
@@ -305,6 +310,9 @@ func fnAndAnons(fn *ssa.Function) []*ssa.Function {
 
 // dominates reports whether instruction a dominates instruction b (same function).
 func dominates(a, b ssa.Instruction) bool {
+	if a.Parent() != b.Parent() {
+		return dominatesX(a, b)
+	}
 	ba, bb := a.Block(), b.Block()
 	if ba == bb {
 		return idxOf(a) < idxOf(b)
@@ -355,45 +363,82 @@ func blockIf(b *ssa.BasicBlock) *ssa.If {
 }
 
 // guardedBy reports whether instruction target is dominated by the `wantTrue` edge of an If
-// whose condition satisfies pred. Returns the matching If.
+// whose condition satisfies pred. Returns the matching If. When the guard is not established inside target's function
+// and that function has a single call site (xfunc.go), the search continues at the call site in the caller.
 func guardedBy(target ssa.Instruction, wantTrue bool, pred func(cond ssa.Value) bool) *ssa.If {
+	cur := target
+	for i := 0; i < 6 && cur != nil; i++ {
+		if g := guardedByLocal(cur, wantTrue, pred, 0); g != nil {
+			return g
+		}
+		cur = ownerSite[cur.Parent()]
+	}
+	return nil
+}
+
+func guardedByLocal(target ssa.Instruction, wantTrue bool, pred func(cond ssa.Value) bool, depth int) *ssa.If {
 	fn := target.Parent()
+	if depth > 3 {
+		return nil
+	}
 	for _, b := range fn.Blocks {
 		ifi := blockIf(b)
 		if ifi == nil {
 			continue
 		}
-		match := func(cond ssa.Value, want bool) bool {
-			return pred(cond) && want == wantTrue
-		}
 		// handle negation: cond may be UnOp NOT of the predicate
-		cond := ifi.Cond
-		neg := false
-		for {
-			if u, ok := cond.(*ssa.UnOp); ok && u.Op == token.NOT {
-				cond = u.X
-				neg = !neg
-				continue
+		cond, neg := unNot(ifi.Cond)
+		dominatesEdge := func(idx int) bool {
+			if b.Succs[idx] == target.Block() && len(target.Block().Preds) == 1 {
+				return true
 			}
-			break
+			return edgeDominates(b, idx, target.Block())
 		}
-		if !pred(cond) {
+		if pred(cond) {
+			// edge index: true edge is Succs[0]
+			idx := 0
+			if !wantTrue {
+				idx = 1
+			}
+			if neg {
+				idx = 1 - idx
+			}
+			if dominatesEdge(idx) {
+				return ifi
+			}
 			continue
 		}
-		_ = match
-		// edge index: true edge is Succs[0]
-		idx := 0
-		if !wantTrue {
-			idx = 1
-		}
-		if neg {
-			idx = 1 - idx
-		}
-		if b.Succs[idx] == target.Block() && len(target.Block().Preds) == 1 {
-			return ifi
-		}
-		if edgeDominates(b, idx, target.Block()) {
-			return ifi
+		// `ok := a && b && c` / `bad := a || b || c` held in a variable and branched on: the edge on which the
+		// conjunction is true (the disjunction false) implies each of its operands
+		if last, v, isOr, ok := phiConjunction(cond); ok {
+			idx := 0 // all operands of && are true on the true edge
+			operandsAre := true
+			if isOr {
+				idx = 1 // all operands of || are false on the false edge
+				operandsAre = false
+			}
+			if neg {
+				idx = 1 - idx
+			}
+			if !dominatesEdge(idx) {
+				continue
+			}
+			// the last operand
+			lv, lneg := unNot(v)
+			val := operandsAre
+			if lneg {
+				val = !val
+			}
+			if pred(lv) && val == wantTrue {
+				return ifi
+			}
+			// earlier operands: branches that dominate the block the last operand is evaluated in
+			if len(last.Instrs) > 0 {
+				if g := guardedByLocal(last.Instrs[len(last.Instrs)-1], wantTrue, pred, depth+1); g != nil {
+					return ifi
+				}
+				// the last operand may itself be evaluated in `last` whose terminator is the jump to the phi block
+			}
 		}
 	}
 	return nil
@@ -411,7 +456,7 @@ func sortedKeys[M ~map[string]V, V any](m M) []string {
 }
 
 func shortType(t types.Type) string {
-	s := t.String()
+	s := normTypeNames(t.String())
 	s = strings.ReplaceAll(s, repoModule+"/internal/step/", "")
 	s = strings.ReplaceAll(s, repoModule+"/internal/", "")
 	s = strings.ReplaceAll(s, repoModule+"/", "")
@@ -551,6 +596,9 @@ func valueOrigin(v ssa.Value) string {
 			}
 			return "unop"
 		case *ssa.Parameter:
+			if arg, ok := paramBinding[x]; ok && i < 7 {
+				return valueOrigin(arg)
+			}
 			return "param " + x.Name()
 		case *ssa.FreeVar:
 			return "captured " + x.Name()
